@@ -156,9 +156,12 @@ CLAIMED = {
    ref='DESIGN 6 C05'),
  'C03': dict(
    text='PARTIAL. Proved in Coq about the faithful model of expr.c/match.c (flat match list with sentinels, pattern entries, pending actions, pass/break markers, '
-        'matches_merge, neg clearing the list): every condition evaluates to its boolean formula whatever is short-circuited or pending; in any block of plain rules '
-        '(no pass/break/nesting) the first matching rule wins and exactly its actions are queued. The general statement (pass, break, nested blocks, on "clean" '
-        'evaluations) is stated but NOT proved: it is checked bounded-exhaustively and randomly against the documented semantics (spec_run) by the harness. '
+        'matches_merge, neg clearing the list): every condition evaluates to its boolean formula whatever is short-circuited or pending; for ARBITRARILY NESTED blocks of '
+        'rules with plain action lists (any conditions) run_rules equals the documented semantics spec_run: a nested block is entered only if its condition holds and the '
+        'first rule matching in depth-first order wins with exactly its actions; for FLAT blocks whose action lists may end with pass or break (conditions without '
+        'negation) the actions other than move / flag performed are exactly those of the documented semantics (pass keeps and continues, break abandons). The general '
+        'statement (pass / break inside nested blocks, on "clean" evaluations) is stated but NOT proved: it is checked bounded-exhaustively and randomly against the '
+        'documented semantics (spec_run) by the harness. '
         'Known findings with witness lemmas: T1/T2 (pinned), T3=F-02, F-21 location merge. Tied by comparing the action list mdsort -d prints, in order, and the '
         'final tree of a real run with the extracted evaluator on all 8 truth assignments per generated tree.',
    note='The parser shape (left-nested OR chain, MATCH sentinel, AND chain of actions, and/or equal precedence left-associative, ! tighter) is modelled by hand '
